@@ -103,6 +103,12 @@ def run(ctx):
     cases = [(7, s) for s in LS.exhaustive(alpha, k)]
     small = [c for c in alpha if c in " \n'\"`#-/*(1a<=|x0."]
     cases += [(0, s) for s in LS.exhaustive(small, k)]
+    # the witnesses of repaired lexer defects (regression corpus), also embedded between other tokens
+    import json as _json, os as _os
+    for f in _json.load(open(_os.path.join(E.VERIF, "known_findings.json"))):
+        w = f.get("witness", {})
+        if f.get("status") == "fixed" and isinstance(w.get("input"), str) and len(w["input"]) < 400:
+            cases += [(7, w["input"]), (0, w["input"]), (7, "a " + w["input"] + " , (b)")]
     n = 6000 if quick else 150000
     for _ in range(n):
         s = LS.random_concat(r, 1 + r.below(12))
